@@ -237,6 +237,8 @@ class Printer:
             raise Unsupported(f'cast kind {ck}')
         if k == 'ParenExpr':
             return '(' + self.expr(inner[0]) + ')'
+        if k == 'SubstNonTypeTemplateParmExpr':
+            return self.expr(inner[-1])
         if k in TRANSPARENT:
             return self.expr(inner[0])
         if k == 'IntegerLiteral':
